@@ -377,7 +377,10 @@ class LinearScale(object):
 
     def copy(self):
         return LinearScale(
-            self._domain, self._range, self._interpolate, self._clamp
+            list(self._domain),
+            list(self._range),
+            self._interpolate,
+            self._clamp,
         )
 
     def __call__(self, x):
